@@ -25,6 +25,7 @@ structure SInt where
   label : String
   i : Spec.Int
   resolved : Bool := false
+  must : Bool := true      -- Express reported success: the Interest must resolve (false: Express returned an error)
 
 structure SpecSt where
   ints : List SInt := []
@@ -259,6 +260,56 @@ def stepC20 (d : DSt) (op : String) (got : String) : StepResult DSt :=
         if w == "w1" then ["arrival-lp"] else if w == "w2" then ["arrival-lp-token"] else ["arrival-bare"]
       match args with
       | ["express", label, nameT, cbpT, lifeT] => doExpress label nameT cbpT lifeT "ok" []
+      | ["expressf", label, nameT, cbpT, lifeT] =>
+        -- the face's Send fails: Express returns the error, the entry stays in the PIT and times out.
+        -- SPEC: at most one callback (whether an Interest whose Express failed must be resolved at all is
+        -- not something the property states, so `exactly-once` is not demanded of it)
+        match Name.ofText nameT, optNat lifeT with
+        | some final, some life =>
+          let cbp := cbpT == "1"
+          let (m2, o) := stepM d.pinned m1 (.express final cbp life)
+          match o with
+          | .expressed id =>
+            let (dig, node) := splitDigest final
+            let spInts := sp1.ints ++ [{ label := label, i := ⟨node, final, cbp, dig, t, life.getD defaultLife⟩, must := false }]
+            mk { d1 with m := m2, labels := d1.labels ++ [(id, label)], sp := { sp1 with ints := spInts } } "senderr" [] []
+              ["express", "express-send-fails"]
+          | _ => mk { d1 with m := m2 } "err" [] [] ["express-err"]
+        | _, _ => bad d
+      | ["expressl", label, nameT, cbpT, lifeT, kind, anameT, digT, _v, w] =>
+        -- the answer (Data / Nack) is delivered to the engine from WITHIN the face's Send of this Express
+        match Name.ofText nameT, optNat lifeT, Name.ofText anameT with
+        | some final, some life, some aname =>
+          let cbp := cbpT == "1"
+          let (m2, o) := stepM d.pinned m1 (.express final cbp life)
+          match o with
+          | .expressed id =>
+            let (dig, node) := splitDigest final
+            let spA : SpecSt := if gotRes == "ok" then
+                { sp1 with ints := sp1.ints ++ [{ label := label, i := ⟨node, final, cbp, dig, t, life.getD defaultLife⟩ }] }
+              else sp1
+            let d2 := { d1 with labels := d1.labels ++ [(id, label)] }
+            if kind == "N" then
+              let (m3, o3) := stepM d.pinned m2 (.nack aname)
+              let cbs := match o3 with | .cbs l => l | _ => []
+              let (sp3, f2) := if isCrash got then (spA, []) else specCb spA gotCb none (some aname)
+              mk { d2 with m := m3, sp := sp3 } "ok" cbs f2 (["express", "express-loop-nack"] ++ wrapCov w)
+            else
+              match bytesOfHex digT with
+              | some adig =>
+                let (m3, o3) := stepM d.pinned m2 (.data aname adig)
+                let cbs := match o3 with | .cbs l => l | _ => []
+                let (sp3, f2) := if isCrash got then (spA, []) else specCb spA gotCb (some (aname, adig)) none
+                let missing := spA.ints.filter fun si =>
+                  !si.resolved && Spec.satisfies si.i aname adig && !(gotCb.any fun e => e.startsWith (si.label ++ ":"))
+                let f3 : List SpecFail := if isCrash got then [] else missing.map fun si =>
+                  ⟨"resolves-all", (if si.label == label then "answer-within-send" else if si.i.node == aname then "same-name" else "prefix"),
+                   s!"Data {anameT} (delivered from within the face's Send of Express {label}) satisfies pending {si.label} ({Name.toText si.i.final} cbp={si.i.cbp}) but its callback was not invoked"⟩
+                mk { d2 with m := m3, sp := sp3 } "ok" cbs (f2 ++ f3)
+                  (["express", "express-loop-data", if cbs.isEmpty then "loop-unsatisfied" else "loop-satisfied"] ++ wrapCov w)
+              | none => bad d
+          | _ => mk { d1 with m := m2 } "err" [] [] ["express-err"]
+        | _, _, _ => bad d
       | ["expressp", label, baseT, cbpT, lifeT, _plen, signer] =>
         -- Interest with ApplicationParameters built by the real MakeInterest (signer none|sha|ecc|short): the
         -- harness reports the name that went out ON THE WIRE; it must be <base>/<ParametersSha256Digest>
@@ -350,7 +401,7 @@ def stepC20 (d : DSt) (op : String) (got : String) : StepResult DSt :=
       | ["tick"] => mk d1 "ok" [] [] ["tick"]
       | ["end"] =>
         -- SPEC: exactly once — every Interest whose lifetime ended more than a second ago is resolved
-        let late := sp1.ints.filter fun si => !si.resolved && si.i.t + si.i.life + 1000000 ≤ t
+        let late := sp1.ints.filter fun si => si.must && !si.resolved && si.i.t + si.i.life + 1000000 ≤ t
         let f2 : List SpecFail := if isCrash got then [] else late.map fun si =>
           ⟨"exactly-once", "never-resolved", s!"{si.label} ({Name.toText si.i.final}) expressed at {si.i.t} lifetime {si.i.life}: no callback by {t}"⟩
         mk d1 "ok" [] f2 ["end"]
